@@ -45,7 +45,8 @@ def run(ctx):
     for i in range(nw):
         ext = rng.random() < 0.5
         cases.append({"kind": "walk", "cfg": rng.choice(configs), "script": rng.choice(plain if ext and rng.random() < 0.5 else stop),
-                      "seed": rng.randrange(1 << 30), "cancelStep": (rng.randrange(0, 90) if ext else -1), "variant": rng.randrange(1000)})
+                      "seed": rng.randrange(1 << 30), "cancelStep": (rng.randrange(0, 90) if ext else -1), "variant": rng.randrange(1000),
+                      "weights": rng.choice(P.WEIGHTS)})
     recs = P.run_pipe(ctx, cases)
     ctx.tick("scheduler_runs")
     for c, r in zip(cases, recs):
@@ -62,7 +63,7 @@ def run(ctx):
     for i in range(nj):
         ext = rng.random() < 0.6
         jit.append({"kind": "jitter", "cfg": rng.choice(configs), "script": rng.choice(plain) if ext else rng.choice(stop),
-                    "seed": rng.randrange(1 << 30), "cancelStep": (rng.randrange(0, 60) if ext else -1), "variant": rng.randrange(1000)})
+                    "seed": rng.randrange(1 << 30), "cancelStep": (rng.randrange(0, 60) if ext else -1), "variant": rng.randrange(1000), "slow": P.slow_choice(rng)})
     jrecs = P.run_pipe(ctx, jit, race=True, shards=8)
     for c in jit:
         ctx.note_case([c["cfg"], c["script"], c["seed"]], nontrivial=True)
